@@ -75,6 +75,10 @@ func (t *fnType) coq() string {
 			s += " " + parenT(p.coq())
 		}
 		return s
+	case "eptr":
+		return "option Z" // a pointer to an element of a slice parameter: its index
+	case "rslice":
+		return "list " + parenT(t.elem.coq()) // an inner slice of a read-only slice of slices, by value
 	case "slice":
 		if t.elem.k == "slice" {
 			return "list view"
